@@ -35,6 +35,7 @@ VALUES = [
     ['none'], ['list', [['int', 1], ['str', 'x'], ['list', [['none']]]]],
     ['dict', [['p', ['int', 1]], ['q', ['list', [['float', 1.5]]]]]], ['tuple', [['int', 1], ['int', 2]]],
     ['npint', 'int16', 7], ['npint', 'uint64', 2 ** 63], ['npfloat', 'float32', 0.5], ['npfloat', 'float16', 1.5],
+    ['npfloat', 'longdouble', 1.5], ['npint', 'int8', -3], ['npfloat', 'float64', 2.25],
     ['nparray', 'int32', [[1, 2], [3, 4]]], ['nparray', 'float64', [0.5, 1.5]], ['bytes', [104, 105]],
     ['list', []], ['dict', []],
 ]
